@@ -134,6 +134,35 @@ def timestep (K : Kernels) (q : GQmc) (beta : Rat) (cfg : Config) (rs : RS) : Co
   let (cfg, rs) := if shouldDoClusterUpdate q then K.cluster cfg rs else (cfg, rs)
   flipFreeBits cfg rs
 
+/-! ### the sampler's cutoff `M` (`Qmc::cutoff`) and the length of the operator container -/
+
+/-- what can happen to the cutoff: a `timestep` after which the string holds `n` operators, a call
+of `increase_cutoff_to(c)`, a call of `set_cutoff(c)` -/
+inductive CutOp where
+  | step (n : Nat)
+  | increase (c : Nat)
+  | set (c : Nat)
+  deriving Repr
+
+/-- `Qmc::cutoff` and the container's length (`manager.get_cutoff()`) -/
+structure CutSt where
+  cutoff : Nat
+  len : Nat
+  deriving Repr, DecidableEq
+
+/-- `diagonal_update`: the sweep runs over `0..M` after growing the container to `M`; afterwards
+`self.cutoff = max(self.cutoff, n + n/2 + 1)`. `increase_cutoff_to(c)` =
+`set_cutoff(max(self.cutoff, c))`. `set_cutoff(c)`: `self.cutoff = c`, the container only grows. -/
+def cutApply (s : CutSt) : CutOp → CutSt
+  | .step n => { cutoff := max s.cutoff (n + n / 2 + 1), len := max s.len s.cutoff }
+  | .increase c => { cutoff := max s.cutoff c, len := max s.len (max s.cutoff c) }
+  | .set c => { cutoff := c, len := max s.len c }
+
+/-- the states after each operation -/
+def cutTrace (s : CutSt) : List CutOp → List CutSt
+  | [] => []
+  | o :: t => cutApply s o :: cutTrace (cutApply s o) t
+
 /-! ### protocol encoding of call lists: `variant:mat:vars!variant:mat:vars…` (`-` = none) -/
 namespace Proto
 
